@@ -3,6 +3,7 @@ package c09
 import (
 	"bytes"
 	"fmt"
+	"sync"
 	"testing"
 
 	"com.tuntun.rangers/node/src/common"
@@ -23,6 +24,7 @@ func TestBatchSerialiseThenParse(t *testing.T) {
 			bytes []byte
 			copy  []byte
 			check func(b []byte) string
+			again func() ([]byte, error) // serialise the same value once more
 		}
 		var items []item
 		n := rapid.IntRange(2, 5).Draw(t, "nItems")
@@ -43,7 +45,7 @@ func TestBatchSerialiseThenParse(t *testing.T) {
 						return fmt.Sprintf("parse error %v", err)
 					}
 					return eqHeader(h, out)
-				}})
+				}, func() ([]byte, error) { return types.MarshalBlockHeader(h) }})
 			case "block":
 				h, _ := genHeaderA(t, false)
 				if !hdrTimesFaithful(h) {
@@ -70,7 +72,7 @@ func TestBatchSerialiseThenParse(t *testing.T) {
 						return fmt.Sprintf("block came back with hash %s, was serialised with hash %s (height %d vs %d)", out.Header.GenHash().Hex(), h.Hash.Hex(), out.Header.Height, h.Height)
 					}
 					return eqBlock(bl, out)
-				}})
+				}, func() ([]byte, error) { return types.MarshalBlock(bl) }})
 			case "tx":
 				tx, _ := genTxA(t)
 				b, err := types.MarshalTransaction(tx)
@@ -83,7 +85,7 @@ func TestBatchSerialiseThenParse(t *testing.T) {
 						return fmt.Sprintf("parse error %v", err)
 					}
 					return eqTx(tx, &out)
-				}})
+				}, func() ([]byte, error) { return types.MarshalTransaction(tx) }})
 			case "txs":
 				var txs []*types.Transaction
 				for j, m := 0, rapid.IntRange(1, 3).Draw(t, "ntxs"); j < m; j++ {
@@ -100,7 +102,7 @@ func TestBatchSerialiseThenParse(t *testing.T) {
 						return fmt.Sprintf("parse error %v", err)
 					}
 					return eqTxs(txs, out)
-				}})
+				}, func() ([]byte, error) { return types.MarshalTransactions(txs) }})
 			case "group":
 				g, _ := genGroupA(t, false)
 				if !timeCodecFaithful(g.Header.BeginTime) {
@@ -116,7 +118,7 @@ func TestBatchSerialiseThenParse(t *testing.T) {
 						return fmt.Sprintf("parse error %v", err)
 					}
 					return eqGroup(g, out)
-				}})
+				}, func() ([]byte, error) { return types.MarshalGroup(g) }})
 			}
 		}
 		kinds := ""
@@ -128,6 +130,49 @@ func TestBatchSerialiseThenParse(t *testing.T) {
 			if d := it.check(it.bytes); d != "" {
 				t.Fatalf("%s #%d, parsed after %d later serialisations: %s", it.kind, i, len(items)-1-i, d)
 			}
+		}
+		// the same values from several goroutines at once (network handlers, block and transaction relays and the
+		// stores all serialise and parse concurrently): each goroutine serialises its own value again and parses
+		// the result, many times over; every parse must give the value back, as it did alone
+		if len(items) >= 2 && rapid.IntRange(0, 3).Draw(t, "concurrently") == 0 {
+			reps := rapid.SampledFrom([]int{20, 200}).Draw(t, "repetitions")
+			var wg sync.WaitGroup
+			var mu sync.Mutex
+			failure := ""
+			for i := range items {
+				wg.Add(1)
+				go func(i int) {
+					defer wg.Done()
+					defer func() {
+						if p := recover(); p != nil {
+							mu.Lock()
+							failure = fmt.Sprintf("%s #%d: panic while %d other goroutines were serialising/parsing their own values: %v", items[i].kind, i, len(items)-1, p)
+							mu.Unlock()
+						}
+					}()
+					for r := 0; r < reps; r++ {
+						b, err := items[i].again()
+						if err != nil || b == nil {
+							mu.Lock()
+							failure = fmt.Sprintf("%s #%d: serialising again failed (%v) while other goroutines were at work", items[i].kind, i, err)
+							mu.Unlock()
+							return
+						}
+						if d := items[i].check(b); d != "" {
+							mu.Lock()
+							failure = fmt.Sprintf("%s #%d: correct alone, but serialised and parsed while %d other goroutines were serialising/parsing their own values (repetition %d): %s", items[i].kind, i, len(items)-1, r, d)
+							mu.Unlock()
+							return
+						}
+					}
+				}(i)
+			}
+			wg.Wait()
+			if failure != "" {
+				t.Fatalf("%s", failure)
+			}
+			stats.Class("A_batch_concurrent")
+			stats.Count("concurrent_serialise_parse_rounds", int64(len(items)*reps))
 		}
 		key := ""
 		if len(items) >= 2 {
